@@ -125,7 +125,17 @@ def r5_move_list(ctx):
     f = prog.fns[ks[0]]
     from ..expr import Exprs
     ex = Exprs(f)
+    SPLITS = ("split", "split_whitespace", "split_ascii_whitespace", "split_terminator")
+
+    def from_split(tree, depth=0):
+        """does this value derive from the token iterator (a split call somewhere below it)?"""
+        if not isinstance(tree, tuple) or depth > 40:
+            return False
+        if tree and tree[0] == "call" and isinstance(tree[1], str) and tree[1].rsplit("::", 1)[-1] in SPLITS:
+            return True
+        return any(from_split(x, depth + 1) for x in tree if isinstance(x, tuple))
     calls = []
+    on_tokens = []      # adaptor calls whose receiver is the token stream
     closures = {}
     for b in f["blocks"]:
         t = b["term"]
@@ -133,14 +143,22 @@ def r5_move_list(ctx):
             continue
         name = (t["callee"].get("orig") or t["callee"].get("key") or "?")
         calls.append(name)
-        for a in t["args"]:
-            tr = ex.operand(a)
-            if tr[0] == "agg" and tr[1] == "closure":
-                closures.setdefault(name.rsplit("::", 1)[-1], []).append(tr[2])
+        short = name.rsplit("::", 1)[-1]
+        if t["args"] and from_split(ex.operand(t["args"][0])):
+            on_tokens.append(short)
+            for a in t["args"]:
+                tr = ex.operand(a)
+                if tr[0] == "agg" and tr[1] == "closure":
+                    closures.setdefault(short, []).append(tr[2])
     last = [c.rsplit("::", 1)[-1] for c in calls]
-    splits = [c for c in last if c in ("split", "split_whitespace", "split_ascii_whitespace", "split_terminator")]
-    ok = len(splits) == 1 and "collect" in last
-    ctx.ob(rid, "split-and-collect", ok, "" if ok else "from_space_sv does not split the string once and collect the tokens (calls: %s)" % last, "%s:%d" % (f["file"], f["line"]), sample={"calls": last})
+    splits = [c for c in last if c in SPLITS]
+    if len(splits) != 1:
+        # tokenised some other way (a hand-written scan, two passes): not read by this rule
+        ctx.lost(rid, "from_space_sv: exactly one split of the string (found %d)" % len(splits))
+    else:
+        ok = any(c in last for c in ("collect", "push", "extend", "from_iter"))
+        ctx.ob(rid, "split-and-collect", ok, "" if ok else "from_space_sv splits the string but does not gather the tokens (calls: %s)" % last, "%s:%d" % (f["file"], f["line"]), sample={"calls": last})
+    last = on_tokens
     DROPPING = {"filter", "filter_map", "take", "skip", "take_while", "skip_while", "step_by", "rev", "nth", "last", "dedup", "truncate", "pop", "remove", "retain", "chunks", "zip", "find", "position", "map_while", "splitn", "rsplitn", "split_once"}
     bad = []
     for c in sorted(set(last) & DROPPING):
